@@ -78,9 +78,11 @@ def benign() -> str:
         out.append("| {id} | {p} | {w} | {c} | {note} |".format(id=m["id"], p=m["property"],
                    w=(s.get("what") or m.get("what", ""))[:200].replace("|", "/"), c=cls, note=s.get("note", "")))
     out.append("")
-    out.append(f"{len(rows)} harmless changes: {n['PASS']} pass, {n['NFIF']} end as `VIOLATION … no-failing-input-found` (the tie could not follow "
-               f"the rewrite and the search found nothing - the outcome the interface prescribes), {n['ALARM']} produced a concrete \"failing input\" "
-               f"(false alarms; each is discussed in its row and was corrected), {n['ERROR']} errors.")
+    first_alarm = sum(1 for m in rows if str(summ.get(m["id"], {}).get("note", "")).startswith("first evaluation: ALARM"))
+    out.append(f"{len(rows)} harmless changes, outcome of the recorded (latest) evaluation: {n['PASS']} pass, {n['NFIF']} end as `VIOLATION … "
+               f"no-failing-input-found` (the tie could not follow the rewrite and the search found nothing - the outcome the interface prescribes), "
+               f"{n['ALARM']} name a concrete \"failing input\", {n['ERROR']} errors.  {first_alarm} of them had produced a concrete \"failing input\" "
+               f"at their first evaluation - false alarms of the machinery, described in their rows, corrected, and re-evaluated.")
     return "\n".join(out)
 
 
